@@ -30,6 +30,26 @@ def func_of(spec, tag):
     return m + ".add_constraints:ensures:" + str(t)
 
 
+def check_init(inst, spec, meth, opti, label=""):
+    """C10: every solver variable starts at the user's guess (contracts/oracle.py:expected_initial), in physical units"""
+    from .oracle import expected_initial
+    c = ctx()
+    start = list(opti.initial())        # rockit's OptiWrapper.initial() already carries the parameter values
+    have = {str(x) for eq in start for x in ca.MX(eq.dep(1)).e}
+    start += [eq for eq in opti.value_parameters() if not ({str(x) for x in ca.MX(eq.dep(1)).e} & have)]
+    for tag, handle, exp in expected_initial(spec, meth, spec.initial_realised):
+        name = "%s|%s.set_initial:ensures:start[%s%s]" % (inst, MOD[spec.method] if spec.method == "DC" else "sampling_method:SamplingMethod", label, "/".join(str(t) for t in tag))
+        try:
+            got = opti.value(handle, start)
+        except RuntimeError as e:
+            c.fail(name, "starting value cannot be read back: %s" % e)
+            continue
+        want = ca.MX(exp)
+        if want.has_symbols():
+            want = opti.value(want, start)          # a parametric horizon: the times implied by the parameter VALUES
+        nlp.prove_equal(name, got, want)
+
+
 def time_names(spec, meth, decision_only=False):
     """names of the opti symbols the time grid is made of (decision_only: without horizon PARAMETERS)"""
     names = set()
@@ -260,21 +280,7 @@ def check_nlp(spec, parts=("dynamics", "placement", "frame", "objective"), inst=
         if opti._n_minimize != 1:
             c.fail("%s|direct_method:OptiWrapper.transcribe_placeholders:ensures:minimize-once" % inst, "Opti.minimize called %d times" % opti._n_minimize)
     if "init" in parts:
-        from .oracle import expected_initial
-        start = list(opti.initial())        # rockit's OptiWrapper.initial() already carries the parameter values
-        have = {str(x) for eq in start for x in ca.MX(eq.dep(1)).e}
-        start += [eq for eq in opti.value_parameters() if not ({str(x) for x in ca.MX(eq.dep(1)).e} & have)]
-        for tag, handle, exp in expected_initial(spec, meth, spec.initial_realised):
-            name = "%s|%s.set_initial:ensures:start[%s]" % (inst, MOD[spec.method] if spec.method == "DC" else "sampling_method:SamplingMethod", "/".join(str(t) for t in tag))
-            try:
-                got = opti.value(handle, start)
-            except RuntimeError as e:
-                c.fail(name, "starting value cannot be read back: %s" % e)
-                continue
-            want = ca.MX(exp)
-            if want.has_symbols():
-                want = opti.value(want, start)          # a parametric horizon: the times implied by the parameter VALUES
-            nlp.prove_equal(name, got, want)
+        check_init(inst, spec, meth, opti)
     if "pvals" in parts:
         # C09: column k of a per-interval parameter is the value on interval k (include_last: column N at the final node);
         # matrix-valued parameters keep their element layout; a later set_value replaces that parameter only
